@@ -273,6 +273,37 @@ def repeated_split(ctx, conf):
             return
 
 
+def long_recorder(ctx):
+    """a recorder that has seen tens of thousands of blocks: split, rewind, split, rewind, split - the same regions each time"""
+    rng = ctx.rng("long-recorder")
+    nblocks = rng.choice((33000, 40000, 66000)) + rng.randint(0, 500)
+    loud, quiet = bytes([90]), bytes([0])
+    data = b"".join((loud if (i // 37) % 3 else quiet) for i in range(nblocks))
+    data = data[:32700] + loud * 200 + data[32900:]  # an event across block 32768
+    kw = dict(min_dur=0.5, max_dur=20, max_silence=0.25, energy_threshold=20)
+    case = {"long_recorder_blocks": nblocks, "rate": 8, "block_dur": 0.125}
+    try:
+        rec = Recorder(data, block_dur=0.125, sampling_rate=8, sample_width=1, channels=1)
+        runs = []
+        for k in range(3):
+            runs.append(regions_of(auditok.split(rec, **kw)))
+            rec.rewind()
+        recorded = bytes(rec.data)
+    except Exception as exc:
+        ctx.violation("exception:" + type(exc).__name__, {"case": case, "exception": repr(exc)[:300]})
+        return
+    ctx.case(repr(("long-recorder", nblocks)), bool(runs[0]))
+    ctx.count("long_recorder_cases")
+    ctx.maxi("blocks_through_one_recorder", nblocks)
+    ref = regions_of(auditok.split(data, analysis_window=0.125, sampling_rate=8, sample_width=1, channels=1, **kw))
+    for k, r in enumerate(runs):
+        if r != ref:
+            ctx.violation("repeated-split-of-long-recorder-differs", {"case": case, "run": k, "n_regions": len(r), "n_expected": len(ref)})
+            return
+    if recorded != data:
+        ctx.violation("long-recorder-data-differs-from-the-audio-read", {"case": case, "recorded": len(recorded), "read": len(data)})
+
+
 def validator_orders(ctx, conf):
     rng = ctx.rng("validator")
     from ..gen import audio as A
@@ -480,6 +511,8 @@ def run_shard(ctx):
         checksum_colliding_windows(ctx)
     validator_orders(ctx, conf)
     repeated_split(ctx, conf)
+    if ctx.shard in (6, 10) or ctx.tier == "thorough":
+        long_recorder(ctx)
     random_pairs(ctx, conf)
     exhaustive_pairs(ctx, conf)
 
@@ -502,7 +535,7 @@ def replay(ctx, case):
 
 def inconclusive(merged, tier):
     c = merged["counters"]
-    need = ["reuse_pairs", "exhaustive_pairs", "repeated_split_cases", "repeated_splits_compared", "validator_verdicts_compared", "refilled_window_objects_checked", "cross_thread_reuses", "checksum_colliding_windows_judged",
+    need = ["reuse_pairs", "exhaustive_pairs", "long_recorder_cases", "generators_collected_in_the_middle_of_a_later_run", "repeated_split_cases", "repeated_splits_compared", "validator_verdicts_compared", "refilled_window_objects_checked", "cross_thread_reuses", "checksum_colliding_windows_judged",
             "buffer_reopen_cases"] + ["use_" + u for u in USES]
     return [f"monitor never observed {k}" for k in need if c.get(k, 0) == 0]
 
